@@ -235,7 +235,7 @@ func corpus() []corpusApp {
 		}
 		out = append(out, corpusApp{Name: name, Build: build, Cfgs: cfgs, Inputs: in})
 	}
-	add("navigator", navigatorApp, std)
+	add("navigator", navigatorApp, append(append([]engine.Config{}, std...), engine.Config{ResetOnEmptyInput: true}))
 	for ti, t := range [][]c03Line{{{"aa", "1"}, {"bb", "1"}, {"_", "2"}}, {{"<", "1"}, {"aa", "*"}}, {{".", "1"}, {"_", "*"}}, {{"aa", "*"}, {"bb", "2"}}} {
 		t := t
 		for d := 0; d < 2; d++ {
@@ -296,7 +296,7 @@ func corpus() []corpusApp {
 			add(fmt.Sprintf("end-%d-%s", depth, kind), func() *app.App { return c20App(sp) }, []engine.Config{{}})
 		}
 	}
-	add("echo", echoApp, []engine.Config{{}, {OutputSize: 20}, {CacheSize: 14}})
+	add("echo", echoApp, []engine.Config{{}, {OutputSize: 20}, {CacheSize: 14}, {ResetOnEmptyInput: true}})
 	add("trailnl", func() *app.App {
 		// values that end in a newline: the last loaded value is the last thing in the stored record
 		a := app.New("trailnl")
